@@ -47,6 +47,7 @@ Record req := mkReq {
   r_sess : option N;                      (* getSessionID: Some id iff exactly one non-empty Session header *)
   r_path : N;                             (* getPathAndQuery(req.URL).path, as an identifier *)
   r_verdict : bool;                       (* the application's handler answers 200 *)
+  r_verdict_play : bool;                  (* SETUP in a playing session: the handler answers 200 *)
   r_ctype : ctype;                        (* ANNOUNCE: Content-Type *)
   r_sdp : option N;                       (* ANNOUNCE: media count of an SDP accepted by the SDP layers *)
   r_transports : option (list transport); (* SETUP: Transport header list; None = absent / unparsable *)
@@ -65,7 +66,8 @@ Inductive event :=
 Inductive sevent :=
 | SNew (ip : N) (tunnel : bool)     (* accept *)
 | SConn (c : N) (e : event)
-| STimeout (sid : N).               (* udpCheckStreamTimer fires and the peer was silent *)
+| STimeout (sid : N)                (* udpCheckStreamTimer fires and the peer was silent *)
+| SWriterErr (sid : N).             (* the session's writer fails (chWriterError), e.g. its TCP connection is gone *)
 
 Inductive outcome :=
 | OResp (status : N) (closes : bool) (adv : option N)
@@ -462,8 +464,8 @@ Definition sess_setup (g : cfg) (s : server) (c : conn) (ss : session) (r : req)
   | SetupReject st e => Some (s, ss, st, if e then RErr else RNone)
   | SetupAccept th p path trk =>
       if negb (h_setup g) then None else                                   (* Handler.(ServerHandlerOnSetup) *)
-      if negb (r_verdict r) then Some (s, ss, 404, RNone) else
       let playing := match s_state ss with SInitial | SPrePlay => true | _ => false end in
+      if negb (if playing then r_verdict_play r else r_verdict r) then Some (s, ss, 404, RNone) else
       match (if playing then media_by_track (c_nmedias g) trk
              else match s_announced ss with                                 (* ss.announcedDesc.Medias *)
                   | None => None
@@ -793,6 +795,13 @@ Definition step (g : cfg) (s : server) (ev : sevent) : option (server * outcome)
                    else Some (s, OIgnored)
       | None => Some (s, OIgnored)
       end
+  | SWriterErr sid =>
+      match find_sess sid (v_sess s) with
+      | Some ss => if s_writer ss
+                   then match end_session s sid with None => None | Some s1 => Some (s1, OIgnored) end
+                   else Some (s, OIgnored)
+      | None => Some (s, OIgnored)
+      end
   end.
 
 Fixpoint run_events (g : cfg) (s : server) (evs : list sevent) : option (server * list outcome) :=
@@ -881,13 +890,13 @@ Definition get_sref (l : list N) : option (N * N * option N * list N) :=   (* ki
   | _ => None
   end.
 
-(* request: method cseq url sess(sref) path verdict ctype sdp(opt) transports(0 | 1 k {transport})
+(* request: method cseq url sess(sref) path verdict verdictplay ctype sdp(opt) transports(0 | 1 k {transport})
             keymgmt playurl(0 | 1 path trackkind trackn) recmedia(opt) udpwriteok *)
 Definition get_req (l : list N) : option (req * N * N * list N) :=
   match l with
   | m :: cs :: u :: t =>
       match get_sref t with
-      | Some (sk, skk, sess, p :: v :: ct :: t1) =>
+      | Some (sk, skk, sess, p :: v :: vp :: ct :: t1) =>
           match get_optn t1 with
           | Some (sdp, t2) =>
               match (match t2 with
@@ -908,7 +917,7 @@ Definition get_req (l : list N) : option (req * N * N * list N) :=
                   | Some (pu, t7) =>
                       match get_optn t7 with
                       | Some (rm, w :: t8) =>
-                          Some (mkReq (dec_method m) (getb cs) (getb u) sess p (getb v)
+                          Some (mkReq (dec_method m) (getb cs) (getb u) sess p (getb v) (getb vp)
                                       (match ct with 0 => CTMissing | 1 => CTOther | _ => CTSdp end)
                                       sdp trs (getb km) pu rm (getb w), sk, skk, t8)
                       | _ => None
@@ -985,7 +994,8 @@ Definition resolve (advs : list (N * N)) (e : sevent) (sref k : N) : sevent :=
                   | 3 => lookup_adv k advs
                   | _ => r_sess r
                   end in
-      SConn c (EReq (mkReq (r_method r) (r_cseq r) (r_url r) sess (r_path r) (r_verdict r) (r_ctype r) (r_sdp r)
+      SConn c (EReq (mkReq (r_method r) (r_cseq r) (r_url r) sess (r_path r) (r_verdict r) (r_verdict_play r)
+                           (r_ctype r) (r_sdp r)
                            (r_transports r) (r_keymgmt r) (r_play_url r) (r_rec_media r) (r_udp_write_ok r)))
   | _ => e
   end.
@@ -999,6 +1009,25 @@ Fixpoint drain (g : cfg) (s : server) (sl : list session) : option server :=
       | None => None
       | Some (s1, _) => drain g s1 t
       end
+  end.
+
+(* the harness feeds the served stream continuously: the writer of a session that plays over a TCP
+   connection that is gone fails at the next packet *)
+Fixpoint feed_closure (g : cfg) (s : server) (sl : list session) : option server :=
+  match sl with
+  | [] => Some s
+  | x :: t =>
+      let dead := match s_state x, s_tr x, s_tcpconn x with
+                  | SPlay, Some (SPTCP, _), Some c =>
+                      match find_conn c (v_conns s) with None => true | Some _ => false end
+                  | _, _, _ => false
+                  end in
+      if dead then
+        match step g s (SWriterErr (s_id x)) with
+        | None => None
+        | Some (s1, _) => feed_closure g s1 t
+        end
+      else feed_closure g s t
   end.
 
 Fixpoint run_wire (g : cfg) (s : server) (advs : list (N * N)) (evs : list wevent) : list N :=
@@ -1019,7 +1048,10 @@ Fixpoint run_wire (g : cfg) (s : server) (advs : list (N * N)) (evs : list weven
                        | SConn c _, OResp _ _ (Some id) => (c, id) :: advs
                        | _, _ => advs
                        end in
-          put_outcome o ++ run_wire g s1 advs' t
+          match feed_closure g s1 (v_sess s1) with
+          | None => [77]
+          | Some s2 => put_outcome o ++ run_wire g s2 advs' t
+          end
       end
   end.
 
